@@ -112,6 +112,7 @@ type Machine struct {
 		FeasQueries, AssertQueries int
 		ConcQueries                int
 		Fallbacks                  int
+		Restarts                   int
 		CrossAsked, CrossAgreed    int
 		CrossSkipped               int
 		RangeDecided               int
@@ -317,6 +318,14 @@ func (m *Machine) query(c *Term, keep bool) Result {
 		}
 	}
 	m.S.Pop()
+	if m.S.Err() != nil {
+		// the solver process reported an error (e.g. a timeout that cancelled a push): its state is not
+		// trusted any more. Start a fresh process, rebuild the path scope and re-ask one-shot.
+		if !m.restartSolver() {
+			m.abort("inconclusive", fmt.Sprintf("solver process failed and could not be restarted: %v", m.S.Err()))
+		}
+		r = Unknown
+	}
 	if r == Unknown && m.S.Err() == nil {
 		m.S.Queries.Unknown-- // re-asked below; counted there
 		m.Stats.Fallbacks++
@@ -353,6 +362,33 @@ func (m *Machine) query(c *Term, keep bool) Result {
 		m.abort("inconclusive", fmt.Sprintf("solver answered unknown/timeout/error (%v) at %s on %s", m.S.Err(), m.siteLong(), q))
 	}
 	return r
+}
+
+// restartSolver replaces a failed solver process and re-establishes the current path scope.
+func (m *Machine) restartSolver() bool {
+	name := m.S.Name
+	q := m.S.Queries
+	t := m.S.Time
+	depth := m.S.Depth()
+	m.S.Close()
+	s, err := NewSolver(name)
+	if err != nil {
+		return false
+	}
+	s.Queries, s.Time = q, t
+	s.Queries.Errors++
+	m.S = s
+	m.Stats.Restarts++
+	for i := 0; i < depth; i++ {
+		m.S.Push()
+	}
+	for _, v := range m.vars {
+		m.S.ref(v)
+	}
+	for _, c := range m.pc {
+		m.S.Assert(c)
+	}
+	return true
 }
 
 // Decide returns the truth value of c on this path, forking when both are feasible.
